@@ -34,11 +34,11 @@
 #define VH_UNPOISON(p, n) ((void)0)
 #endif
 
-enum { VH_GC_NONE = 0, VH_GC_EVERY, VH_GC_AT, VH_GC_NTH };
+enum { VH_GC_NONE = 0, VH_GC_EVERY, VH_GC_AT, VH_GC_NTH, VH_GC_WIN };
 
 static int vh_poison = 0;
 static int vh_gc_mode = VH_GC_NONE;
-static long vh_gc_k = 0;
+static long vh_gc_k = 0, vh_gc_k2 = 0;
 static volatile int vh_gc_armed = 0;
 static long vh_alloc_count = 0;   /* allocations seen while armed */
 static long vh_total_allocs = 0;  /* all allocations */
@@ -94,6 +94,7 @@ static int vh_want_gc(sexp ctx, size_t size) {
   case VH_GC_EVERY: vh_forced_gcs++; return 1;
   case VH_GC_AT: if (n == vh_gc_k) { vh_forced_gcs++; return 1; } return 0;
   case VH_GC_NTH: if (vh_gc_k > 0 && n % vh_gc_k == 0) { vh_forced_gcs++; return 1; } return 0;
+  case VH_GC_WIN: if (n >= vh_gc_k && n < vh_gc_k2) { vh_forced_gcs++; return 1; } return 0;
   }
   return 0;
 }
@@ -252,12 +253,17 @@ static void vh_install_gc_hooks(void) {
   sexp_verif.on_free_heap = vh_on_free_heap;
 }
 
-/* "every" | "at:K" | "nth:N" | "none" */
+/* "every" | "at:K" | "nth:N" | "win:A:B" | "none" */
 static int vh_parse_gc(const char *s) {
   if (!s || !*s || !strcmp(s, "none")) { vh_gc_mode = VH_GC_NONE; return 1; }
   if (!strcmp(s, "every")) { vh_gc_mode = VH_GC_EVERY; return 1; }
   if (!strncmp(s, "at:", 3)) { vh_gc_mode = VH_GC_AT; vh_gc_k = atol(s + 3); return 1; }
   if (!strncmp(s, "nth:", 4)) { vh_gc_mode = VH_GC_NTH; vh_gc_k = atol(s + 4); return 1; }
+  if (!strncmp(s, "win:", 4)) {   /* win:A:B = before every allocation k with A <= k < B */
+    const char *c = strchr(s + 4, ':');
+    if (!c) return 0;
+    vh_gc_mode = VH_GC_WIN; vh_gc_k = atol(s + 4); vh_gc_k2 = atol(c + 1); return 1;
+  }
   return 0;
 }
 
